@@ -327,3 +327,135 @@ func partRealBinaryDefaults(c *check.Ctx, a *acc, prop string) {
 		map[string]any{"engine": "E7 real binary defaults", "property": prop, "evaluations": evaluations})
 	_ = d.TPoseBcast
 }
+
+// partRealRegistryAcrossReregistration: the real binary re-registers with the
+// discovery service in the middle of its life (health checks withheld) and is
+// given a new server id and secret, as the fake service does at every
+// registration. Sessions created before and after, a session that ends in
+// between, joins naming ids of both epochs: at the end no two live sessions
+// share a session id, every live session is found under the id its creator
+// was given, with its uuid, and a session that ended is not found.
+func partRealRegistryAcrossReregistration(c *check.Ctx, a *acc) {
+	bin, err := c.WS.Build("real", "plain")
+	if err != nil {
+		c.Inconc("real build failed: " + err.Error())
+		return
+	}
+	defer func() {
+		if r := recover(); r != nil {
+			c.Inconc(fmt.Sprint("registry across re-registration: ", r))
+		}
+	}()
+	hds, err := fakes.NewHDS()
+	if err != nil {
+		panic(err)
+	}
+	defer hds.Close()
+	p, err := c.WS.StartReal(bin, sut.RealOpts{HDS: hds.URL(), NCS: fakes.ClosedPortURL(), HealthTTL: 1500 * time.Millisecond, RegInterval: 200 * time.Millisecond, Frame: 5 * time.Millisecond, Name: "realrereg"})
+	if err != nil {
+		panic(err)
+	}
+	defer p.Kill()
+	for k := 0; k < 1500 && hds.Secret() == ""; k++ {
+		time.Sleep(10 * time.Millisecond)
+	}
+	if hds.Secret() == "" {
+		panic("not registered")
+	}
+	mint := func() string {
+		return signJWT("HS256", hds.Secret(), map[string]any{"alg": "HS256", "typ": "JWT"}, map[string]any{"exp": time.Now().Add(time.Hour).Unix()})
+	}
+	rf := func(props []string, clause, format string, x ...any) {
+		c.Report(&check.Finding{Props: props, Clause: clause, Trigger: "real-binary-re-registration", Engine: "E7 registry across re-registration", Detail: fmt.Sprintf(format, x...)})
+	}
+	dial := func() *scen.C {
+		cl, err := scen.DialReal(p, mint())
+		if err != nil {
+			panic(err)
+		}
+		return cl
+	}
+	create := func() *scen.C {
+		cl := dial()
+		jr, _, err := cl.Join("")
+		if err != nil || jr == nil {
+			panic(fmt.Sprint("creation failed: ", err))
+		}
+		return cl
+	}
+	A, B := create(), create()
+	defer A.Close()
+	defer B.Close()
+	D := dial()
+	defer D.Close()
+	if jr, _, err := D.Join(B.SID); err != nil || jr == nil {
+		panic("joining by id before the re-registration failed")
+	}
+	first := hds.Secret()
+	hds.SetHealthChecks(false)
+	rotated := false
+	for i := 0; i < 2000; i++ {
+		if s := hds.Secret(); s != first && s != "" {
+			rotated = true
+			break
+		}
+		time.Sleep(10 * time.Millisecond)
+	}
+	hds.SetHealthChecks(true)
+	if !rotated {
+		c.Inconc("registry across re-registration: the real binary did not re-register within the bound")
+		return
+	}
+	aSID := A.SID
+	A.Close()
+	A.WaitClosed()
+	time.Sleep(150 * time.Millisecond)
+	// two sessions are created (one takes over the numeric id that became free)
+	live := []*scen.C{B}
+	for i := 0; i < 2; i++ {
+		cl := create()
+		defer cl.Close()
+		live = append(live, cl)
+	}
+	// joins naming the ended session, by the id of either epoch, while a live
+	// session carries its numeric id under the new server id
+	for _, sid := range []string{aSID, "srv2x" + aSID[strings.Index(aSID, "x")+1:], aSID} {
+		E := dial()
+		jr, _, err := E.Join(sid)
+		if err == nil && jr != nil && jr.SessionUuid == A.UUID {
+			rf([]string{"C07", "C10"}, "registry/ended-session-still-findable", "after a re-registration, the session %s (uuid %s) whose only member left can still be joined by id %q", aSID, A.UUID, sid)
+		}
+		E.Close()
+		E.WaitClosed()
+	}
+	time.Sleep(100 * time.Millisecond)
+	for i := 0; i < 3; i++ {
+		cl := create()
+		defer cl.Close()
+		live = append(live, cl)
+	}
+	ids := map[string]*scen.C{}
+	for _, cl := range live {
+		if o, dup := ids[cl.SID]; dup && o.UUID != cl.UUID {
+			rf([]string{"C10", "C07"}, "registry/two-live-sessions-one-id", "after a re-registration and one ended session, two live sessions (uuids %s and %s) were both given the session id %s", o.UUID, cl.UUID, cl.SID)
+		}
+		ids[cl.SID] = cl
+	}
+	for _, cl := range live {
+		P := dial()
+		jr, ev, err := P.Join(cl.SID)
+		switch {
+		case err != nil:
+			panic(err)
+		case jr == nil:
+			code, _ := scen.IsErr(ev)
+			rf([]string{"C07", "C10"}, "registry/live-session-not-findable", "after a re-registration, the live session %s (uuid %s; its creator is still connected) cannot be joined by the id its creator was given: error %d", cl.SID, cl.UUID, code)
+		case jr.SessionUuid != cl.UUID:
+			rf([]string{"C10", "C07"}, "registry/id-names-another-session", "after a re-registration, joining the id %s given to the creator of uuid %s lands in uuid %s", cl.SID, cl.UUID, jr.SessionUuid)
+		}
+		P.Close()
+	}
+	c.Coverage["real_binary_reregistration_live_sessions_checked"] = len(live)
+	a.add(len(live)+2, len(live), "E7: the session registry of the real binary across a re-registration that changes its server id (sessions of both epochs, one ended in between, joins by ids of both epochs): live sessions have distinct ids and are found under the id their creator was given; the ended one is not found",
+		map[string]any{"engine": "E7 registry across re-registration", "live_sessions": len(live)})
+}
